@@ -259,7 +259,9 @@ def load_known():
 
 def match_known(known, pid, sig):
     for k in known:
-        if k.get('property') == pid and k.get('sig') == sig:
+        if k.get('property') != pid:
+            continue
+        if k.get('sig') == sig or (k.get('sig_prefix') and sig.startswith(k['sig_prefix'])):
             return k
     return None
 
